@@ -115,7 +115,7 @@ public:
     while (node != nullptr)
     {
       auto processor = node->value_.get();
-      result |= processor->ForceFlush(timeout);
+      result &= processor->ForceFlush(timeout);
       node = node->next_;
     }
     return result;
